@@ -4,6 +4,7 @@ import (
 	"bytes"
 	"encoding/binary"
 	"fmt"
+	"github.com/pckhoi/meow"
 	"os"
 	"sort"
 	"strings"
@@ -121,15 +122,26 @@ func c20Exec(batch uint32, realFile bool, universe [][]byte, pre int, trace []in
 		if pre > 0 {
 			fmt.Fprintf(&sb, "(%d hashes %02x..%02x%02x to %02x..%02x%02x flushed first) ", pre, universe[nU][0], universe[nU][14], universe[nU][15], universe[len(universe)-1][0], universe[len(universe)-1][14], universe[len(universe)-1][15])
 		}
+		skipped := 0
 		for j, op := range trace[:i+1] {
+			if op&c20Quiet != 0 && j < i {
+				skipped++
+				continue
+			}
 			if j > 0 {
 				sb.WriteString(" ")
 			}
-			sb.WriteString(c20OpName(universe[:nU], op))
+			if skipped > 0 {
+				fmt.Fprintf(&sb, "(%d more additions ending with) ", skipped)
+				skipped = 0
+			}
+			sb.WriteString(c20OpName(universe[:nU], op&^c20Quiet))
 		}
 		return sb.String()
 	}
 	for i, op := range trace {
+		quiet := op&c20Quiet != 0 // an inner step of a bulk addition: executed, observed only at the end of the bulk
+		op &^= c20Quiet
 		switch {
 		case op < nU:
 			h := append([]byte{}, universe[op]...)
@@ -163,6 +175,9 @@ func c20Exec(batch uint32, realFile bool, universe [][]byte, pre int, trace []in
 				return "", "error", fmt.Sprintf("reopen returned %v after [%s]", err, describe(i))
 			}
 			pending = pending[:0] // unflushed additions are not promised to survive
+		}
+		if quiet {
+			continue
 		}
 		// membership: no false positive ever, no false negative for flushed members
 		added := map[int]bool{}
@@ -200,6 +215,7 @@ func c20Exec(batch uint32, realFile bool, universe [][]byte, pre int, trace []in
 	kb.WriteByte('|')
 	for _, p := range pending {
 		kb.WriteByte(byte(p))
+		kb.WriteByte(byte(p >> 8))
 	}
 	kb.WriteByte('|')
 	ks := []int{}
@@ -317,6 +333,81 @@ func c20Preloaded(name string, batch uint32, pre int, depth map[string]int) *mc.
 	}
 }
 
+const c20Quiet = 1 << 20
+
+// c20Bulk: operations are whole runs of 256..600 hashes sharing a first byte, added back to back, so that one
+// flush inserts hundreds of entries below, between or above hundreds of stored ones (block-wise moves of long
+// segments); plus Flush and the two reopen operations. Observed after every run, not after every single addition.
+func c20Bulk(name string, batch uint32, depth map[string]int) *mc.Harness {
+	type run struct {
+		first byte
+		n     int
+	}
+	runs := []run{{0x08, 256}, {0x10, 300}, {0x80, 600}, {0xf0, 257}, {0x80, 40}}
+	var u [][]byte
+	var start []int
+	for ri, r := range runs {
+		start = append(start, len(u))
+		for i := 0; i < r.n; i++ {
+			h := make([]byte, 16)
+			h[0], h[1], h[7], h[14], h[15] = r.first, byte(ri), byte(i*7), byte(i>>8), byte(i)
+			u = append(u, h)
+		}
+	}
+	start = append(start, len(u))
+	nU := len(u)
+	expand := func(tr []int) []int {
+		var out []int
+		for _, op := range tr {
+			if op < len(runs) {
+				for k := start[op]; k < start[op+1]; k++ {
+					o := k
+					if k < start[op+1]-1 {
+						o |= c20Quiet
+					}
+					out = append(out, o)
+				}
+			} else {
+				out = append(out, nU+(op-len(runs)))
+			}
+		}
+		return out
+	}
+	opName := func(op int) string {
+		if op < len(runs) {
+			return fmt.Sprintf("AddRun(%d hashes with first byte %02x)", runs[op].n, runs[op].first)
+		}
+		return c20OpName(u, nU+(op-len(runs)))
+	}
+	exec := func(tr []int) (string, string, string) {
+		k, c, v := c20Exec(batch, false, u, 0, expand(tr))
+		if v != "" {
+			var names []string
+			for _, op := range tr {
+				names = append(names, opName(op))
+			}
+			v += "; bulk operations [" + strings.Join(names, " ; ") + "]"
+		}
+		if k != "" {
+			sum := meow.Checksum(0, []byte(k))
+			k = string(sum[:])
+		}
+		return k, c, v
+	}
+	spec := func(d int) *mc.BFSSpec {
+		return &mc.BFSSpec{NumOps: len(runs) + 3, MaxDepth: d, Exec: exec, OpName: opName}
+	}
+	return &mc.Harness{
+		Name:   name,
+		Budget: map[string]time.Duration{"quick": 40 * time.Second, "thorough": 8 * time.Minute},
+		InProc: func(r *mc.Run) { mc.BFS(r, spec(depth[r.Tier])) },
+		ReplayTrace: func(tr []int) (string, string) {
+			_, c, v := exec(tr)
+			return c, v
+		},
+	}
+}
+
 func c20Harness(name string, batch uint32, realFile bool, nU int, depth map[string]int) *mc.Harness {
 	u := c20Universe[:nU]
 	if nU < len(c20Universe) {
@@ -353,6 +444,7 @@ func init() {
 			"a state is the raw file bytes + pending batch + model set; every transition is executed on the implementation and compared with a Go map " +
 			"(Has for every universe hash after every step; sortedness and fan-out of the raw file whenever nothing is pending). " +
 			"plus the same search started from a table that already holds a contiguous run of 33 / 100 / 300 flushed entries, over six hashes placed below, just below, inside, just above and above that run (insertions shift long runs of stored entries). " +
+			"plus (bfs-bulk-runs-*) a search whose operations are whole runs of 256 / 300 / 600 / 257 / 40 hashes sharing a first byte (08, 10, 80, f0, 80) added back to back, Flush and the reopen operations, batch sizes 1024 and 256, depth 5 / 4 (thorough 6 / 5): one flush inserts hundreds of entries below, between or above hundreds of stored ones; observed after every run. " +
 			"distinct_nontrivial = distinct states reached",
 		Assumptions: []string{
 			"hashes outside the 10-value universe behave like universe hashes with the same first-byte / ordering relations",
@@ -367,6 +459,8 @@ func init() {
 			c20Harness("bfs-u7-batch2-deep", 2, false, 7, map[string]int{"quick": 12, "thorough": 16}),
 			c20Harness("bfs-u7-batch1024-deep", 1024, false, 7, map[string]int{"quick": 6, "thorough": 9}),
 			c20Harness("bfs-realfile-batch2", 2, true, 7, map[string]int{"quick": 5, "thorough": 7}),
+			c20Bulk("bfs-bulk-runs-batch1024", 1024, map[string]int{"quick": 5, "thorough": 6}),
+			c20Bulk("bfs-bulk-runs-batch256", 256, map[string]int{"quick": 4, "thorough": 5}),
 			c20Preloaded("bfs-preloaded33-batch2", 2, 33, map[string]int{"quick": 5, "thorough": 7}),
 			c20Preloaded("bfs-preloaded100-batch1024", 1024, 100, map[string]int{"quick": 5, "thorough": 7}),
 			c20Preloaded("bfs-preloaded300-batch3", 3, 300, map[string]int{"quick": 4, "thorough": 6}),
